@@ -111,6 +111,17 @@ Sub(ds, pairs) ==
     IN  [comps |-> { c \in ds.comps : c.n \in k },
          rows |-> { Rst(r, k) : r \in { q \in ds.rows : \A i \in DOMAIN pairs : Cmp(q[pairs[i][1]], pairs[i][2]) = 0 } }]
 
+\* unpivot idn, men: one datapoint per (datapoint, measure with a non-null value): the measure's NAME becomes the value of the new
+\* identifier idn and its value the value of the new measure men; attributes are dropped.  names: measure name -> its code points.
+Unpivot(ds, idn, men, names) ==
+    LET ids == IdsOf(ds)
+        meas == MeasOf(ds)
+        ty == IF \E m \in meas : TypeOfComp(ds, m) = "Number" THEN "Number" ELSE TypeOfComp(ds, CHOOSE m \in meas : TRUE)
+    IN  [comps |-> { c \in ds.comps : c.r = "I" \/ c.r = "V" } \cup { Comp(idn, "I", "String"), Comp(men, "M", ty) },
+         rows |-> { [x \in ids \cup ViralOf(ds) \cup {idn, men} |->
+                       IF x = idn THEN S(names[p[2]]) ELSE IF x = men THEN p[1][p[2]] ELSE p[1][x]]
+                    : p \in { q \in ds.rows \X meas : ~IsNull(q[1][q[2]]) } }]
+
 -----------------------------------------------------------------------------
 (* Aggregates over a group (a set of datapoints; values form a bag, one per datapoint) *)
 NonNullRows(rows, m) == { r \in rows : ~IsNull(r[m]) }
@@ -395,6 +406,7 @@ ApplyClause(t, ds, env) ==
       [] t.op = "drop" -> Drop(ds, Rng(t.items))
       [] t.op = "rename" -> Rename(ds, t.items)
       [] t.op = "sub" -> Sub(ds, t.items)
+      [] t.op = "unpivot" -> Unpivot(ds, t.items[1], t.items[2], t.items[3])
       [] t.op = "aggr" -> Aggr(ds, t.items, t.mode, Rng(t.group), t.having)
 
 EvalD(t, env) ==
